@@ -2,6 +2,7 @@ package main
 
 import (
 	"fmt"
+	"sync/atomic"
 	"go/types"
 	"regexp"
 	"strings"
@@ -228,7 +229,21 @@ func (e *Exec) appendBuiltin(s *State, f *Frame, x *ssa.Call, args []Val) ([]*St
 }
 
 func (e *Exec) call(s *State, f *Frame, x *ssa.Call) ([]*State, bool) {
+	// merged (maybe-nil) interface operands are resolved before anything inspects them
+	if x.Call.IsInvoke() {
+		if iv, ok := e.get(s, f, x.Call.Value).(IfaceV); ok && iv.NilIf != "" {
+			return e.resolveIface(s, f, x.Call.Value, iv), false
+		}
+	}
 	fn, args := e.callee(s, f, &x.Call)
+	if cl0, isCl := fn.(Closure); !isCl || cl0.Fn == nil || cl0.Fn.Blocks == nil || intrinsics[cl0.Fn.String()] != nil || !strings.HasPrefix(cl0.Fn.String(), "(*"+comdexPath) && !strings.HasPrefix(cl0.Fn.String(), "("+comdexPath) && !strings.HasPrefix(cl0.Fn.String(), comdexPath) {
+		for i, av := range x.Call.Args {
+			if iv, ok := e.get(s, f, av).(IfaceV); ok && iv.NilIf != "" {
+				_ = i
+				return e.resolveIface(s, f, av, iv), false
+			}
+		}
+	}
 	switch fv := fn.(type) {
 	case nilInvoke:
 		e.runtimePanic(s, "invalid memory address or nil pointer dereference (method "+fv.Method+" on nil interface)")
@@ -278,7 +293,20 @@ func (e *Exec) call(s *State, f *Frame, x *ssa.Call) ([]*State, bool) {
 		return nil, false
 	}
 	if h, ok := intrinsics[name]; ok {
-		return h(e, s, f, x, args)
+		fk, d := h(e, s, f, x, args)
+		if e.pendingForks != nil {
+			fk, e.pendingForks = e.pendingForks, nil
+			return fk, false
+		}
+		return fk, d
+	}
+	if !e.initMode && len(e.stubs) > 0 {
+		e.mu.Lock()
+		_, stubbed := e.stubs[name]
+		e.mu.Unlock()
+		if stubbed {
+			return e.havocCall(s, f, x, cl.Fn)
+		}
 	}
 	if strings.HasPrefix(name, "(github.com/cosmos/cosmos-sdk/x/params/types.Subspace).") {
 		return e.subspace(s, f, x, cl.Fn.Name(), args)
@@ -306,7 +334,10 @@ func (e *Exec) call(s *State, f *Frame, x *ssa.Call) ([]*State, bool) {
 		}
 		panic("missing intrinsic " + name)
 	}
-	if !e.noMerge && !e.initMode && comdex && mergeable(cl.Fn) {
+	if comdex && e.regionEnabled(cl.Fn) {
+		return e.callRegion(s, fn, args, x), false
+	}
+	if !e.noMerge && !e.initMode && comdex && mergeable(cl.Fn) && !e.regionEnabled(cl.Fn) && e.noRegion {
 		if ok := e.tryMergeCall(s, f, x, fn, args); ok {
 			return nil, false
 		}
@@ -421,7 +452,7 @@ func (e *Exec) tryMergeCall(s *State, f *Frame, x *ssa.Call, fn Val, args []Val)
 	e.pushCall(sub, fn, args, nil, false)
 	base := len(s.PC)
 	size0 := envSize(s.env())
-	heapMark := s.NextObj
+	heapMark := int(atomic.LoadInt64(&e.objSeq))
 	type res struct {
 		st  *State
 		val Val
@@ -548,9 +579,6 @@ func (e *Exec) tryMergeCall(s *State, f *Frame, x *ssa.Call, fn Val, args []Val)
 				}
 			}
 		}
-		if o.st.NextObj > s.NextObj {
-			s.NextObj = o.st.NextObj
-		}
 		e.adoptPreState(s, o.st)
 	}
 	f.Regs[x] = v
@@ -560,7 +588,7 @@ func (e *Exec) tryMergeCall(s *State, f *Frame, x *ssa.Call, fn Val, args []Val)
 func stripDefs(pc []string) []string {
 	var out []string
 	for _, c := range pc {
-		if strings.HasPrefix(c, "#def#") {
+		if strings.HasPrefix(c, "#def#") || strings.HasPrefix(c, "#name#") {
 			continue
 		}
 		out = append(out, c)
@@ -585,4 +613,48 @@ func sameVal(a, b Val) bool {
 		return ok && x.Pos == y.Pos && len(x.K) == len(y.K)
 	}
 	return fmt.Sprint(a) == fmt.Sprint(b)
+}
+
+// havocCall: contract stub "any result of the right types" (amounts non-negative; an error result is nil or non-nil).
+// Declared by the harness with zzvp.Stub and listed in the evidence file.
+func (e *Exec) havocCall(s *State, f *Frame, x *ssa.Call, fn *ssa.Function) ([]*State, bool) {
+	e.stats["stub-call:"+fn.String()]++
+	res := fn.Signature.Results()
+	vals := make(Tuple, res.Len())
+	errIdx := -1
+	for i := 0; i < res.Len(); i++ {
+		t := res.At(i).Type()
+		if t.String() == "error" {
+			errIdx = i
+			vals[i] = IfaceV{}
+			continue
+		}
+		vals[i] = e.anyOf(s, t, "stub")
+	}
+	set := func(st *State, v Tuple) {
+		if len(v) == 1 {
+			top(st).Regs[x] = v[0]
+		} else if len(v) > 1 {
+			top(st).Regs[x] = v
+		}
+	}
+	if errIdx < 0 {
+		set(s, vals)
+		return nil, false
+	}
+	okv := e.sol.fresh("stub_ok", true)
+	return e.fork(s, okv, func(t *State) { set(t, vals) }, func(t *State) {
+		ev := make(Tuple, len(vals))
+		for i := range ev {
+			if i == errIdx {
+				ev[i] = errIface()
+			} else {
+				ev[i] = e.zero(res.At(i).Type())
+				if isBig(res.At(i).Type()) {
+					ev[i] = BigV{T: "0"}
+				}
+			}
+		}
+		set(t, ev)
+	}), false
 }
